@@ -479,3 +479,8 @@ def slice_nal(h, rng, data_bits=None):
     w.raw(data_bits)
     w.trailing()
     return nal_bytes(h["nal_type"], h["ref_idc"], w.bytes()), data_bits
+
+
+def bitgen_unescape(payload):
+    from vlib.bitgen import unescape
+    return unescape(payload)[0]
